@@ -6,6 +6,9 @@ import VlsModel.Gen.FnFilter
 import VlsModel.Gen.FnOnchain
 import VlsModel.Gen.FnSimpleCommit
 import VlsModel.Gen.FnSimpleSetup
+import VlsModel.Gen.FnOnchainPass
+import VlsModel.Gen.FnPolicyMod
+import VlsModel.Gen.Chain
 import VlsModel.Lemmas.FnGen
 /-
 C05 — pieces of the hand-written policy model (`Model/Policy.lean`) proved equal to the function bodies that
@@ -1233,5 +1236,290 @@ example :
           { exInfo with isCp := false } :=
   C05_fn_validate_holder_commitment_tx _ exSetup ⟨1000, 3, 0⟩ _ 1 0 _ _ _ _ _ _ rfl (fun _ => rfl) (fun _ => rfl)
     (by decide) (by decide) (by decide)
+
+
+/-! ## Round 9 — configuration branches and the error plumbing behind `policy_err!`
+
+Generated areas: `Gen.FnFilter` (now also `new_permissive`, `merge`, `default`), `Gen.FnOnchain` (`is_ready`),
+`Gen.FnPolicyMod` (`policy/mod.rs`: the three `…_with_filter` functions; the `Policy` impls of `SimplePolicy` and
+`OnchainPolicy`; `make_onchain_policy`; the factory constructors), `Gen.FnOnchainPass` (the fourteen
+`OnchainValidator` methods that only delegate to the inner validator). -/
+
+/-! ### `PolicyFilter::{default, new_permissive, merge}` -/
+
+/-- `PolicyFilter::default()` (translated body) is the rule list `x_policy.py` extracts as the default filter of both
+    network policies -/
+theorem C05_fn_filter_default : Gen.FnFilter.PolicyFilter.default = toPF Gen.Policy.defaultFilter := rfl
+
+/-- … and with it every tag is an error: nothing is downgraded unless a rule says so -/
+theorem C05_fn_filter_default_errs (tag : String) :
+    Gen.FnFilter.PolicyFilter.default.filter tag = .ok .Error := by
+  rw [C05_fn_filter_default, C05_fn_policy_filter]; rfl
+
+/-- `PolicyFilter::new_permissive()` is the model's `permissiveFilter` … -/
+theorem C05_fn_filter_new_permissive : Gen.FnFilter.PolicyFilter.new_permissive = toPF permissiveFilter := rfl
+
+/-- … which downgrades every tag (the documented opt-out the property excludes) -/
+theorem C05_fn_filter_new_permissive_warns (tag : String) :
+    Gen.FnFilter.PolicyFilter.new_permissive.filter tag = .ok .Warn := by
+  rw [C05_fn_filter_new_permissive, C05_fn_policy_filter]
+  simp [filterEval, permissiveFilter, ruleMatches, String.isPrefixOf, ofAction]
+
+/-- `PolicyFilter::merge`: the other filter's rules are appended behind the receiver's -/
+theorem C05_fn_filter_merge (a b : List Gen.Policy.Rule) :
+    (toPF a).merge (toPF b) = toPF (a ++ b) := by
+  simp [Gen.FnFilter.PolicyFilter.merge, toPF]
+
+/-- "rules in this filter take precedence": a tag matched by a rule of the receiver is decided by the receiver, any
+    other tag by the merged-in filter (model level; with `C05_fn_filter_merge` and `C05_fn_policy_filter` this is a
+    statement about the translated `merge` + `filter`) -/
+theorem filterEval_append (a b : List Gen.Policy.Rule) (tag : String) :
+    filterEval (a ++ b) tag = if a.any (fun r => ruleMatches r tag) then filterEval a tag else filterEval b tag := by
+  induction a with
+  | nil => simp [filterEval]
+  | cons r rs ih =>
+    simp only [List.cons_append, filterEval, List.any_cons]
+    by_cases h : ruleMatches r tag = true
+    · simp [h]
+    · simp [h, ih]
+
+theorem C05_fn_filter_merge_precedence (a b : List Gen.Policy.Rule) (tag : String) :
+    ((toPF a).merge (toPF b)).filter tag
+      = if a.any (fun r => ruleMatches r tag) then (toPF a).filter tag else (toPF b).filter tag := by
+  rw [C05_fn_filter_merge, C05_fn_policy_filter, C05_fn_policy_filter, C05_fn_policy_filter, filterEval_append]
+  split <;> rfl
+
+/-! ### `OnchainValidator::is_ready` -/
+
+/-- `is_ready` (translated): funding at the generated minimum depth and no close seen -/
+theorem C05_fn_onchain_is_ready (c : ChainState) :
+    toOV.is_ready (toOCh c)
+      = (decide (Gen.Policy.minFundingDepth ≤ c.fundingDepth) && c.closingDepth == 0) := by
+  simp [Gen.FnOnchain.OnchainValidator.is_ready, toOV, toOCh]
+
+/-- `is_ready` is exactly the condition under which the gate lets a non-initial commitment pass when its tag is an
+    error: both functions read the same two fields against the same bound -/
+theorem C05_fn_onchain_is_ready_iff_gate (p : Policy) (c : ChainState) (n : Nat) (hn : n > 0)
+    (hf : errs p .spendsActiveUtxo = true) :
+    toOV.is_ready (toOCh c) = true ↔ ensureFundingBuried p c n = .ok () := by
+  rw [C05_fn_onchain_is_ready]
+  unfold ensureFundingBuried check policyErr
+  by_cases h1 : c.fundingDepth < Gen.Policy.minFundingDepth <;>
+    by_cases h2 : c.closingDepth > 0 <;>
+    simp [hn, h1, h2, hf, bind, Except.bind, pure, Except.pure] <;> omega
+
+/-! ### `policy/mod.rs`: what `policy_err!` / `temporary_policy_err!` expand to -/
+
+section Cfg
+open VlsModel.Gen.FnPolicyMod
+
+def ofActionM : Gen.Policy.Action → FilterResult
+  | .error => .Error
+  | .warn => .Warn
+
+def toPFM (rs : List Gen.Policy.Rule) : PolicyFilter :=
+  { rules := rs.map (fun r => { tag := r.tag, is_prefix := r.isPrefix, action := ofActionM r.action }) }
+
+/-- every value of the generated filter type is the image of a model rule list -/
+def ofPFM (f : PolicyFilter) : List Gen.Policy.Rule :=
+  f.rules.map (fun r => ⟨r.tag, r.is_prefix, match r.action with | .Error => .error | .Warn => .warn⟩)
+
+theorem toPFM_ofPFM (f : PolicyFilter) : toPFM (ofPFM f) = f := by
+  cases f with
+  | mk rules =>
+    simp only [toPFM, ofPFM, List.map_map]
+    congr 1
+    conv => rhs; rw [← List.map_id rules]
+    apply List.map_congr_left
+    intro r _
+    cases r with
+    | mk t ip a => cases a <;> rfl
+
+theorem filterM_eq (rs : List Gen.Policy.Rule) (tag : String) :
+    (toPFM rs).filter tag = .ok (ofActionM (filterEval rs tag)) := by
+  unfold PolicyFilter.filter
+  induction rs with
+  | nil => simp [toPFM, filterEval, ofActionM, Rs.loopM]
+  | cons r rs ih =>
+    simp only [toPFM, List.map_cons, Rs.loopM] at ih ⊢
+    simp only [filterEval, ruleMatches]
+    by_cases hm : (if r.isPrefix = true then String.isPrefixOf r.tag tag else tag == r.tag) = true
+    · simp [hm]
+    · simpa [hm] using ih
+
+/-- the filter decision as the Boolean external the other ties take (`filt p` for `rs = p.filter`) -/
+def filtOf (rs : List Gen.Policy.Rule) : String → Bool := fun tag => filterEval rs tag == .error
+
+theorem filtOf_policy (p : Policy) : filtOf p.filter = filt p := rfl
+
+end Cfg
+
+/-- **`make_policy_error_with_filter` is `Rs.policyErr`**: the runtime library's reading of `policy_err!` ("an error iff
+    the filter keeps the tag an error, otherwise execution continues") is the translated source of the function the
+    macro ends in, for every rule list, tag and message -/
+theorem C05_fn_make_policy_error_with_filter (rs : List Gen.Policy.Rule) (tag msg : String) :
+    Gen.FnPolicyMod.make_policy_error_with_filter tag msg (toPFM rs) = Rs.policyErr (filtOf rs) tag := by
+  unfold Gen.FnPolicyMod.make_policy_error_with_filter Rs.policyErr filtOf
+  rw [filterM_eq]
+  cases h : filterEval rs tag <;> simp [ofActionM, bind, Except.bind]
+
+theorem C05_fn_policy_error_with_filter (rs : List Gen.Policy.Rule) (tag msg : String) :
+    Gen.FnPolicyMod.policy_error_with_filter tag msg (toPFM rs) = Rs.policyErr (filtOf rs) tag := by
+  unfold Gen.FnPolicyMod.policy_error_with_filter
+  exact C05_fn_make_policy_error_with_filter rs tag msg
+
+/-- the temporary variant takes the same decision (its error differs only in kind, which the outcome monad does not
+    carry: `dropped` in the generated comment) -/
+theorem C05_fn_temporary_policy_error_with_filter (rs : List Gen.Policy.Rule) (tag msg : String) :
+    Gen.FnPolicyMod.temporary_policy_error_with_filter tag msg (toPFM rs) = Rs.policyErr (filtOf rs) tag := by
+  unfold Gen.FnPolicyMod.temporary_policy_error_with_filter Rs.policyErr filtOf
+  rw [filterM_eq]
+  cases h : filterEval rs tag <;> simp [ofActionM, bind, Except.bind]
+
+/-- `impl Policy for SimplePolicy`: `policy_error` consults the policy's own filter (not a default, not another one) -/
+theorem C05_fn_simple_policy_error (eb : Bool) (rs : List Gen.Policy.Rule) (tag msg : String) :
+    Gen.FnPolicyMod.SimplePolicy.policy_error { enforce_balance := eb, filter := toPFM rs } tag msg
+      = Rs.policyErr (filtOf rs) tag :=
+  C05_fn_policy_error_with_filter rs tag msg
+
+theorem C05_fn_simple_temporary_policy_error (eb : Bool) (rs : List Gen.Policy.Rule) (tag msg : String) :
+    Gen.FnPolicyMod.SimplePolicy.temporary_policy_error { enforce_balance := eb, filter := toPFM rs } tag msg
+      = Rs.policyErr (filtOf rs) tag :=
+  C05_fn_temporary_policy_error_with_filter rs tag msg
+
+/-- `impl Policy for OnchainPolicy`: the gate's `policy_err!` sites consult the on-chain policy's filter -/
+theorem C05_fn_onchain_policy_error (d : Nat) (rs : List Gen.Policy.Rule) (tag msg : String) :
+    Gen.FnPolicyMod.OnchainPolicy.policy_error { filter := toPFM rs, min_funding_depth := d } tag msg
+      = Rs.policyErr (filtOf rs) tag :=
+  C05_fn_policy_error_with_filter rs tag msg
+
+theorem C05_fn_onchain_temporary_policy_error (d : Nat) (rs : List Gen.Policy.Rule) (tag msg : String) :
+    Gen.FnPolicyMod.OnchainPolicy.temporary_policy_error { filter := toPFM rs, min_funding_depth := d } tag msg
+      = Rs.policyErr (filtOf rs) tag :=
+  C05_fn_temporary_policy_error_with_filter rs tag msg
+
+/-- `make_onchain_policy`: the filter handed in is the filter used, the depth is the generated constant of
+    `x_policy.py` (the model's `Gen.Policy.minFundingDepth`), whatever the network -/
+theorem C05_fn_make_onchain_policy {N : Type} (net : N) (f : Gen.FnPolicyMod.PolicyFilter) :
+    Gen.FnPolicyMod.make_onchain_policy net f = { filter := f, min_funding_depth := Gen.Policy.minFundingDepth } := rfl
+
+/-! ### the factory constructors -/
+
+theorem C05_fn_simple_factory_new : Gen.FnPolicyMod.SimpleValidatorFactory.new = { policy := none } := rfl
+
+theorem C05_fn_simple_factory_new_with_policy (sp : Gen.FnPolicyMod.SimplePolicy) :
+    Gen.FnPolicyMod.SimpleValidatorFactory.new_with_policy sp = { policy := some sp } := rfl
+
+theorem C05_fn_onchain_factory_new :
+    Gen.FnPolicyMod.OnchainValidatorFactory.new = { inner_factory := { policy := none } } := rfl
+
+theorem C05_fn_onchain_factory_new_with_simple_factory (f : Gen.FnPolicyMod.SimpleValidatorFactory) :
+    Gen.FnPolicyMod.OnchainValidatorFactory.new_with_simple_factory f = { inner_factory := f } := rfl
+
+theorem C05_fn_enforce_balance (sp : Gen.FnPolicyMod.SimplePolicy) :
+    Gen.FnPolicyMod.SimpleValidator.enforce_balance { policy := sp } = sp.enforce_balance := rfl
+
+/-- `minimum_initial_balance`: the holder's msat value rounded down to whole satoshi; never fails -/
+theorem C05_fn_minimum_initial_balance (v : Gen.FnPolicyMod.SimpleValidator) (x : Nat) :
+    v.minimum_initial_balance x = .ok (x / 1000) := by
+  simp [Gen.FnPolicyMod.SimpleValidator.minimum_initial_balance, Rs.udiv, bind, Except.bind, pure, Except.pure]
+
+/-- trait default `Policy::max_channels` = the constant `x_chain.py` extracts -/
+theorem C05_fn_policy_max_channels {S : Type} (s : S) :
+    Gen.FnPolicyMod.Policy.max_channels s = Gen.Chain.maxChannelsDefault := rfl
+
+/-! ### `OnchainValidator`: the methods that only delegate
+
+For **every** implementation `ext` of the inner validator's method, the wrapper returns what `ext` returns on the inner
+validator with the same arguments in the same order: the on-chain validator neither drops nor adds a check on these
+paths (a wrapper that answered `Ok(())` itself, or swapped two arguments of one type, fails here). -/
+
+section Pass
+open VlsModel.Gen.FnOnchainPass
+variable {V W S D T K E X Y Z A B : Type}
+
+theorem C05_fn_onchain_pass_validate_setup_channel (ext : V → W → S → D → Rs.M Unit) (v : OnchainValidator V) (w : W) (s : S)
+    (d : D) : OnchainValidator.validate_setup_channel ext v w s d = ext v.inner w s d := rfl
+
+theorem C05_fn_onchain_pass_validate_channel_value (ext : V → S → Rs.M Unit) (v : OnchainValidator V) (s : S) :
+    OnchainValidator.validate_channel_value ext v s = ext v.inner s := rfl
+
+theorem C05_fn_onchain_pass_validate_onchain_tx
+    (ext : V → W → List (Option K) → T → List Bool → List Nat → List D → Nat → Rs.M Nat) (v : OnchainValidator V) (w : W)
+    (ch : List (Option K)) (tx : T) (fl : List Bool) (vals : List Nat) (ps : List D) (wt : Nat) :
+    OnchainValidator.validate_onchain_tx ext v w ch tx fl vals ps wt = ext v.inner w ch tx fl vals ps wt := rfl
+
+theorem C05_fn_onchain_pass_decode_commitment_tx (ext : V → K → S → Bool → T → List (List Nat) → Rs.M X)
+    (v : OnchainValidator V) (k : K) (s : S) (cp : Bool) (tx : T) (ws : List (List Nat)) :
+    OnchainValidator.decode_commitment_tx ext v k s cp tx ws = ext v.inner k s cp tx ws := rfl
+
+theorem C05_fn_onchain_pass_validate_counterparty_revocation (ext : V → E → Nat → K → Rs.M Unit) (v : OnchainValidator V)
+    (e : E) (n : Nat) (k : K) :
+    OnchainValidator.validate_counterparty_revocation ext v e n k = ext v.inner e n k := rfl
+
+theorem C05_fn_onchain_pass_decode_and_validate_htlc_tx
+    (ext : V → Bool → S → K → T → Z → Nat → Z → Rs.M (Nat × X × Y × A)) (v : OnchainValidator V) (cp : Bool) (s : S) (k : K)
+    (tx : T) (r : Z) (amt : Nat) (o : Z) :
+    OnchainValidator.decode_and_validate_htlc_tx ext v cp s k tx r amt o = ext v.inner cp s k tx r amt o := rfl
+
+theorem C05_fn_onchain_pass_validate_htlc_tx (ext : V → S → E → Bool → X → Nat → Rs.M Unit) (v : OnchainValidator V) (s : S)
+    (c : E) (cp : Bool) (h : X) (fr : Nat) :
+    OnchainValidator.validate_htlc_tx ext v s c cp h fr = ext v.inner s c cp h fr := rfl
+
+theorem C05_fn_onchain_pass_decode_and_validate_mutual_close_tx (ext : V → W → S → E → T → List D → Rs.M X)
+    (v : OnchainValidator V) (w : W) (s : S) (e : E) (tx : T) (ps : List D) :
+    OnchainValidator.decode_and_validate_mutual_close_tx ext v w s e tx ps = ext v.inner w s e tx ps := rfl
+
+theorem C05_fn_onchain_pass_validate_delayed_sweep (ext : V → W → S → E → T → Nat → Nat → D → Rs.M Unit)
+    (v : OnchainValidator V) (w : W) (s : S) (c : E) (tx : T) (i amt : Nat) (d : D) :
+    OnchainValidator.validate_delayed_sweep ext v w s c tx i amt d = ext v.inner w s c tx i amt d := rfl
+
+theorem C05_fn_onchain_pass_validate_counterparty_htlc_sweep (ext : V → W → S → E → T → Z → Nat → Nat → D → Rs.M Unit)
+    (v : OnchainValidator V) (w : W) (s : S) (c : E) (tx : T) (r : Z) (i amt : Nat) (d : D) :
+    OnchainValidator.validate_counterparty_htlc_sweep ext v w s c tx r i amt d = ext v.inner w s c tx r i amt d := rfl
+
+theorem C05_fn_onchain_pass_validate_justice_sweep (ext : V → W → S → E → T → Nat → Nat → D → Rs.M Unit)
+    (v : OnchainValidator V) (w : W) (s : S) (c : E) (tx : T) (i amt : Nat) (d : D) :
+    OnchainValidator.validate_justice_sweep ext v w s c tx i amt d = ext v.inner w s c tx i amt d := rfl
+
+theorem C05_fn_onchain_pass_validate_payment_balance (ext : V → Nat → Nat → Option Nat → Rs.M Unit) (v : OnchainValidator V)
+    (i o : Nat) (inv : Option Nat) :
+    OnchainValidator.validate_payment_balance ext v i o inv = ext v.inner i o inv := rfl
+
+theorem C05_fn_onchain_pass_validate_payment_cltv (ext : V → Nat → Nat → Rs.M Unit) (v : OnchainValidator V) (i o : Nat) :
+    OnchainValidator.validate_payment_cltv ext v i o = ext v.inner i o := rfl
+
+theorem C05_fn_onchain_pass_minimum_initial_balance (ext : V → Nat → Nat) (v : OnchainValidator V) (x : Nat) :
+    OnchainValidator.minimum_initial_balance ext v x = ext v.inner x := rfl
+
+end Pass
+
+/-- C05's setup clause under the **on-chain** validator, derived from the source: the wrapper hands the request to the
+    inner `SimpleValidator::validate_setup_channel` (translated), which is the model's `validateSetup`
+    (`C05_fn_validate_setup_channel`); so `C05_setup` speaks about both validator kinds -/
+theorem C05_fn_onchain_setup_is_simple {W D : Type} (p : Policy)
+    (canSpend : W → D → Nat → Option Bool) (allow : W → Nat → D → Bool) (s : Setup) (w : W) (path : D) :
+    Gen.FnOnchainPass.OnchainValidator.validate_setup_channel
+        (fun (v : Gen.FnSimpleSetup.SimpleValidator) w s d =>
+          Gen.FnSimpleSetup.SimpleValidator.validate_setup_channel (filt p) canSpend allow v w s d)
+        ⟨toV4 p⟩ w (toCS4 s) path
+      = Gen.FnSimpleSetup.SimpleValidator.validate_setup_channel (filt p) canSpend allow (toV4 p) w (toCS4 s) path := rfl
+
+/-- … and the size clause: the wrapper's `validate_channel_value` is the inner one (`C05_fn_validate_channel_value`) -/
+theorem C05_fn_onchain_value_is_simple (p : Policy) (s : Setup) :
+    Gen.FnOnchainPass.OnchainValidator.validate_channel_value
+        (fun (v : Gen.FnSimpleCommit.SimpleValidator) s =>
+          Gen.FnSimpleCommit.SimpleValidator.validate_channel_value (filt p) v s)
+        ⟨toV2 p⟩ (toCS s)
+      = Gen.FnSimpleCommit.SimpleValidator.validate_channel_value (filt p) (toV2 p) (toCS s) := rfl
+
+/-! non-vacuity -/
+example : Gen.FnPolicyMod.make_policy_error_with_filter "policy-commitment-fee-range" "m"
+    (toPFM [⟨"policy-commitment-fee-range", false, .error⟩, ⟨"policy-", true, .warn⟩])
+    = .error (.err "policy-commitment-fee-range") := by rw [C05_fn_make_policy_error_with_filter]; rfl
+example : Gen.FnPolicyMod.make_policy_error_with_filter "policy-commitment-htlc-count-limit" "m"
+    (toPFM [⟨"policy-commitment-fee-range", false, .error⟩, ⟨"policy-commitment-htlc-count-limit", false, .warn⟩]) = .ok () := by rw [C05_fn_make_policy_error_with_filter]; rfl
+example : toOV.is_ready (toOCh ⟨100, 1, 0⟩) = true ∧ toOV.is_ready (toOCh ⟨100, 0, 0⟩) = false
+    ∧ toOV.is_ready (toOCh ⟨100, 3, 1⟩) = false := by decide
 
 end VlsModel.Props.C05Fn
